@@ -48,8 +48,9 @@ def history_campaign(out, pid, plans, pclauses, antecedent, seed, mclauses=None,
     for plan in plans:
         scope = plan["scope"]
         if plan.get("mc", True):
-            r = C.model_check(scope, invariants=plan.get("invariants"), props=plan.get("props", ()), maxgens=plan.get("mc_maxgens"))
-            out.add_model(r, "MhlHistoryMC/%s" % scope)
+            r = C.model_check(scope, invariants=plan.get("invariants"), props=plan.get("props", ()), maxgens=plan.get("mc_maxgens"),
+                              simulate=plan.get("mc_simulate"), depth=plan.get("mc_depth", 14), seed=seed, timeout=plan.get("mc_timeout", 1500))
+            out.add_model(r, "MhlHistoryMC/%s%s" % (scope, " (random walks)" if plan.get("mc_simulate") else ""))
         if plan.get("behaviours") is not None:
             behs = plan["behaviours"]
         else:
@@ -311,7 +312,8 @@ generic(
         dict(scope="ign", mode="simulate", num=40, depth=7, limit=300, mc=False),
         dict(scope="deep", mode="simulate", num=30, depth=8, maxops=12, maxgens=30, limit=300, mc=False),
     ],
-    thorough=[
+    thorough=[dict(scope="all", mode="simulate", num=20, depth=12, maxops=14, maxgens=60, limit=2500, mc=True, mc_simulate=100000, mc_timeout=600, mc_depth=16, mc_maxgens=60, invariants=INV_C02),
+             
         dict(scope="deep", mode="simulate", num=300, depth=10, maxops=14, maxgens=40, limit=3000, mc=False),
         dict(scope="tree", mode="simulate", num=400, depth=10, mc_maxgens=2, invariants=INV_C02),
         dict(scope="nest", mode="simulate", num=400, depth=10, mc_maxgens=3, invariants=INV_C02),
@@ -333,7 +335,8 @@ generic(
         dict(scope="deep", mode="simulate", num=30, depth=8, maxops=12, maxgens=30, limit=400, mc=False),
         dict(scope="tiny", mode="exhaustive", maxops=4, limit=800, mc_maxgens=2, invariants=INV_C03),
     ],
-    thorough=[
+    thorough=[dict(scope="all", mode="simulate", num=20, depth=12, maxops=14, maxgens=60, limit=2500, mc=True, mc_simulate=100000, mc_timeout=600, mc_depth=16, mc_maxgens=60, invariants=INV_C03),
+             
         dict(scope="deep", mode="simulate", num=300, depth=10, maxops=14, maxgens=40, limit=4000, mc=False),
         dict(scope="tiny", mode="exhaustive", maxops=5, mc_maxgens=2, invariants=INV_C03),
         dict(scope="tree", mode="simulate", num=500, depth=10, mc_maxgens=2, invariants=INV_C03, variants=[{"names": "plain"}, {"names": "mixed", "touch": True}, {"names": "xml"}]),
@@ -354,7 +357,8 @@ generic(
         dict(scope="deep", mode="simulate", num=30, depth=8, maxops=12, maxgens=30, limit=400, mc=False),
         dict(scope="nest2f", mode="simulate", num=30, depth=8, limit=400, mc_maxgens=2, invariants=INV_C08),
     ],
-    thorough=[
+    thorough=[dict(scope="all", mode="simulate", num=20, depth=12, maxops=14, maxgens=60, limit=2500, mc=True, mc_simulate=100000, mc_timeout=600, mc_depth=16, mc_maxgens=60, invariants=INV_C08),
+             
         dict(scope="nest", mode="simulate", num=800, depth=11, mc_maxgens=3, invariants=INV_C08),
         dict(scope="deep", mode="simulate", num=300, depth=10, maxops=14, maxgens=40, limit=5000, mc_maxgens=12, invariants=INV_C08),
         dict(scope="fmt3n", mode="simulate", num=300, depth=6, mc_maxgens=3, invariants=INV_C08),
@@ -373,7 +377,8 @@ generic(
         dict(scope="ign", mode="simulate", num=120, depth=8, limit=800, mc_maxgens=1, invariants=INV_C12, variants=[{"names": "plain"}, {"names": "mixed", "augment": True}]),
         dict(scope="igndh", mode="simulate", num=80, depth=8, limit=900, mc_maxgens=1, invariants=INV_C12 + ["Inv_C09_Identical"], variants=[{"names": "plain", "augment": True}, {"names": "space"}]),
     ],
-    thorough=[
+    thorough=[dict(scope="all", mode="simulate", num=20, depth=12, maxops=14, maxgens=60, limit=2500, mc=True, mc_simulate=100000, mc_timeout=600, mc_depth=16, mc_maxgens=60, invariants=INV_C12),
+             
         dict(scope="ign", mode="simulate", num=1200, depth=10, mc_maxgens=2, invariants=INV_C12, variants=[{"names": "plain"}, {"names": "mixed", "augment": True}]),
         dict(scope="igndh", mode="simulate", num=600, depth=10, limit=5000, mc_maxgens=2, invariants=INV_C12 + ["Inv_C09_Identical"], variants=[{"names": "plain", "augment": True}, {"names": "space"}]),
     ],
@@ -390,7 +395,8 @@ generic(
         dict(scope="cmds", mode="simulate", num=60, depth=10, limit=600, mc_maxgens=1, invariants=INV_C14, variants=[{"names": "plain"}, {"names": "mixed", "flatrel": True}, {"names": "xml", "spelling": "rel"}]),
         dict(scope="nest", mode="simulate", num=40, depth=8, limit=300, mc=False),
     ],
-    thorough=[
+    thorough=[dict(scope="all", mode="simulate", num=20, depth=12, maxops=14, maxgens=60, limit=2500, mc=True, mc_simulate=100000, mc_timeout=600, mc_depth=16, mc_maxgens=60, invariants=INV_C14),
+             
         dict(scope="cmds", mode="simulate", num=600, depth=12, mc_maxgens=2, invariants=INV_C14),
         dict(scope="nest", mode="simulate", num=300, depth=10, mc=False),
         dict(scope="ign", mode="simulate", num=200, depth=8, mc=False),
@@ -427,7 +433,8 @@ INV_C09 = ["Inv_C09_Identical", "Inv_C09_Detects", "Inv_NoInternal", "Inv_C14_Fr
 generic(
     "C09", "model_checking",
     quick=[dict(scope="dh", mode="simulate", num=80, depth=9, limit=1200, mc_maxgens=1, invariants=INV_C09)],
-    thorough=[dict(scope="dh", mode="simulate", num=1500, depth=11, mc_maxgens=2, invariants=INV_C09),
+    thorough=[dict(scope="all", mode="simulate", num=20, depth=12, maxops=14, maxgens=60, limit=2500, mc=True, mc_simulate=100000, mc_timeout=600, mc_depth=16, mc_maxgens=60, invariants=INV_C09),
+             dict(scope="dh", mode="simulate", num=1500, depth=11, mc_maxgens=2, invariants=INV_C09),
               dict(scope="dh6", mode="simulate", num=300, depth=10, mc=False)],
     pclauses=["P_C09_Identical", "P_C09_Detects", "P_C09_NoInternal"],
     antecedent=lambda ln, v: ln["op"]["op"] == "verifydh" and bool(v.get("A_dh")),
